@@ -176,11 +176,7 @@ theorem parseEtagsGo_fuel_irrelevant (f1 f2 : Nat) (s : Str) (st wk : List (Opti
           · rfl
           · simp only []
             split
-            · split
-              · exact ih g rest _ _ hlf' (by omega) (by omega)
-              · exact ih g rest _ _ hlf' (by omega) (by omega)
-            · split
-              · exact ih g rest _ _ hlf' (by omega) (by omega)
-              · exact ih g rest _ _ hlf' (by omega) (by omega)
+            · exact ih g rest _ _ hlf' (by omega) (by omega)
+            · exact ih g rest _ _ hlf' (by omega) (by omega)
 
 end Wz.Http
